@@ -143,6 +143,11 @@ impl PciTransport {
                     .read_word(device_function, capability.offset + CAP_LENGTH_OFFSET),
             };
 
+            if struct_info.bar > 5 {
+                // BAR indices above 5 are reserved, and the driver must ignore such capabilities.
+                continue;
+            }
+
             match cfg_type {
                 VIRTIO_PCI_CAP_COMMON_CFG if common_cfg.is_none() => {
                     common_cfg = Some(struct_info);
